@@ -247,6 +247,24 @@ def density_jobs(pid, quick, rng):
     return jobs
 
 
+def _cognitive_job(arg):
+    return dc.record_cognitive(*arg)
+
+
+def cognitive_jobs(pid, quick, rng):
+    jobs = []
+    for kind in ("Fixed", "Variable", "RandomVariable", "Random"):
+        for n_ in range(60 if quick else 1500):
+            W, B = [(2, (1, 2)), (4, (1, 4)), (2, (1, 1)), (2, (1, 4))][n_ % 4]
+            L = int(rng.integers(1, 11))
+            xs = [int(x) for x in rng.integers(0, 5, size=L)]
+            vs = [int(v) for v in rng.choice([0, 4, 8, 12, 16], size=L)]
+            cuts = [c for c in range(1, L) if rng.random() < (0.0, 0.3, 0.6, 1.0)[n_ % 4]]
+            jobs.append((kind, bc.default_params(kind, W, B), int(rng.integers(1, 4)), int(rng.integers(0, 3)), xs, vs,
+                         cuts, pid == "C03" or n_ % 3 == 0, int(rng.integers(0, 50))))
+    return jobs
+
+
 def _proto_job(arg):
     name, is_manager, budget, w, seed, n, chunk_mode, dseed = arg
     rng = np.random.RandomState(dseed)
@@ -387,6 +405,14 @@ def main_for(pid, tier="quick", seed=0):
             chk.case(("density", t["id"]))
         chk.sample({"density_trace": {k: dtraces[3][k] for k in ("id", "P", "ws", "events")}})
         validate("DensityTrace", dtraces, dc.finding_key, lambda t: t["concrete"])
+        # the cognition window of CognitiveDualQueryStrategy (force_full_budget=True), exact
+        chk.model_check("MC_CognitiveQS", "MC_CognitiveQS.cfg")
+        ctraces = pmap(_cognitive_job, cognitive_jobs(pid, quick, rng))
+        chk.count(len(ctraces))
+        for t in ctraces:
+            chk.case(("cognitive", t["id"]))
+        chk.sample({"cognitive_trace": {k: ctraces[3][k] for k in ("id", "P", "cws", "thr", "events")}})
+        validate("CognitiveTrace", ctraces, dc.finding_key, lambda t: t["concrete"])
     pj = proto_jobs(pid, quick, rng)
     pairs = pmap(_proto_job, pj, chunksize=1)
     ptraces = [t for pair in pairs for t in pair]
